@@ -134,7 +134,7 @@ package tls
 // A client must WRITE with the client block and READ with the server block, a server the opposite
 // (ensures wire_*), and the CBC constructor must be told the direction: isRead == false for the object
 // installed in `out`, isRead == true for the one installed in `in` (anchors dir_*).
-// DEFECT_C27_dir_client_out is refuted by the code: cipher#0 is always built with isRead == true, so for
+// DEFECT_C27_dir_client_out was refuted by the code before the fix: commit 4d378a7: cipher#0 is always built with isRead == true, so for
 // isClient == true and any CBC suite the write side is a CBC *decrypter* (and, symmetrically, cipher#1 is
 // always built with isRead == false, so the client's read side is a CBC *encrypter*: that second clause
 // "at before call cipher#1: isClient ==> arg2" is not listed because the generator assumes a failed
@@ -166,3 +166,4 @@ package tls
 //@   at before call cipher#0: assert dir_server_in: !isClient ==> arg2
 //@   at before call cipher#1: assert dir_server_out: !isClient ==> !arg2
 //@   at before call cipher#0: assert DEFECT_C27_dir_client_out: isClient ==> !arg2
+//@   at before call cipher#1: assert dir_client_in: isClient ==> arg2
